@@ -8,7 +8,8 @@
      clock.beats2secs(beat) in the ClockScheduler, ClockTask._wakeup sets the logical time to
      that value and the routine then reads clock.beats = secs2beats of it
    * histories: the four state-changing operations, folded over a list
-   * one task pending in the scheduler while the clock changes (pend, retime, run_pend)
+   * one task pending in the scheduler while the clock changes (pend, retime, run_pend), and its
+     re-scheduling when the woken routine yields a number (resched)
    * a small interpreter of "queries" (one constructor per public method) used by the
      correspondence to run recorded sessions against the regenerated definitions. *)
 From Coq Require Import ZArith QArith List Bool.
@@ -93,6 +94,11 @@ Fixpoint run_pend (s : clockstate) (h : list op) (p : pend) : option (clockstate
   end.
 (* ClockTask._wakeup(time): the logical time becomes `time`; the routine reads clock.beats *)
 Definition wake_beat_of (s : clockstate) (p : pend) : num := py_secs2beats s (p_secs p).
+(* ... and when the routine then yields the number d the task is due d beats after the beat it woke at
+   (`beats = secs2beats(time)` is taken BEFORE the routine runs, the new key with the map of AFTER it ran):
+   self.beats = beats + delta; scheduler.add(clock.beats2secs(self.beats), self).
+   RT: time = self._beats + delta; self._sched_add(time, task) -- the same numbers. *)
+Definition resched (s : clockstate) (wb d : num) : pend := sched_abs_nrt s (nadd wb d).
 
 (* ---- sessions for the correspondence --------------------------------------------- *)
 Inductive query :=
@@ -133,7 +139,9 @@ Inductive action :=
 | AAsk (k : query) (expect : Z * Z * Z)
 | APlay (id : N) (now : num) (a : quantarg)   (* Routine(id).play(clock, a) / clock.play(.., a) *)
 | APlayNextBar (id : N) (now : num)
-| AWake (id : N) (eb es : Z * Z * Z).         (* routine id first ran: clock.beats, clock.seconds *)
+| AWake (id : N) (eb es : Z * Z * Z)          (* routine id woke up: clock.beats, clock.seconds *)
+| AYield (id : N) (d : num)                   (* the woken routine id yielded d: due d beats after its wake-up beat *)
+| AAdopt (id : N) (b x : num).                (* a routine observed running at beat b, second x (RT: played from the main thread) *)
 
 Fixpoint find_pend (id : N) (l : list (N * pend)) : option pend :=
   match l with
@@ -168,9 +176,15 @@ Fixpoint replay_bad (rt : bool) (s : clockstate) (pl : list (N * pend)) (l : lis
   | AWake id eb es :: r =>
       match find_pend id pl with
       | Some p => if canon_eqb (canon (wake_beat_of s p)) eb && canon_eqb (canon (p_secs p)) es
-                  then replay_bad rt s pl r (N.succ i) else Some i
+                  then replay_bad rt s ((id, mkPend (wake_beat_of s p) (p_secs p)) :: pl) r (N.succ i) else Some i
       | None => Some i
       end
+  | AYield id d :: r =>
+      match find_pend id pl with
+      | Some p => replay_bad rt s ((id, resched s (p_beats p) d) :: pl) r (N.succ i)
+      | None => Some i
+      end
+  | AAdopt id b x :: r => replay_bad rt s ((id, mkPend b x) :: pl) r (N.succ i)
   end.
 
 (* a session starts with the constructor: TempoClock(tempo, beats, seconds) at thread time now *)
